@@ -8,6 +8,12 @@ import DvidModel.Lemmas.Key
 namespace Dvid.Props.C06
 open Dvid Dvid.Key
 
+/-- the id encodings the model's `be32` stands for are still big-endian 4-byte encodings in the source
+    (regenerated facts from dvid/data.go) -/
+theorem id_encodings_big_endian :
+    Gen.instanceIDBigEndian = true ∧ Gen.versionIDBigEndian = true ∧ Gen.clientIDBigEndian = true ∧
+    Gen.instanceIDSize = 4 ∧ Gen.versionIDSize = 4 ∧ Gen.clientIDSize = 4 := by decide
+
 /-- All components are recovered from any data/tombstone key. -/
 theorem parse_construct (i v c : Nat) (tk : Bytes) (tomb : Bool) (hi : U32 i) (hv : U32 v) (hc : U32 c) :
     tkeyFromKey (dataKey i v c tk tomb) = some tk ∧
